@@ -22,10 +22,22 @@ TbOK(e) == /\ e.admitted <= TbBound(T.global, T.globalBurst, e.window)
            /\ (~ready \/ T.nilcs) => (e.admitted <= TbBound(T.local, T.localBurst, e.window) /\ e.admitted >= T.local * (e.window - 1))
            /\ (ready /\ ~T.nilcs /\ last.k = "reply" /\ last.q >= 1 /\ last.q <= T.global /\ last.b >= last.q /\ last.b <= T.globalBurst) =>
                  (e.admitted <= TbBound(last.q, last.b, e.window) /\ e.admitted >= last.q * (e.window - 1))
-Accept == Ev.k = "measure" => IF T.type = "mif" THEN MifOK(Ev) ELSE TbOK(Ev)
+\* global-COUNT strategy (GlobalCount.tla): events [k |-> "acq", gk |-> "accept"|"reject"|"fail"|"tooold", q]; every measurement is taken
+\* after the gateway was left without traffic for longer than the watchdog and resync periods since the server changed its behaviour
+ClampTo(q, lo, hi) == IF q < lo THEN lo ELSE IF q > hi THEN hi ELSE q
+GcMifOK(e) == /\ e.admitted <= T.global /\ e.admitted >= 0                        \* whatever the server answered
+              /\ ~ready => e.admitted = T.local
+              /\ (ready /\ last.k = "fail") => e.admitted = T.local                  \* failing server: the local limit, not a stale quota and not none
+              /\ (ready /\ last.k = "accept") => e.admitted = ClampTo(last.q, 1, T.global)   \* a granted quota takes effect (the instance keeps a reserve of 1)
+              /\ (ready /\ last.k = "reject") => e.admitted <= ClampTo(last.q, 0, T.global)
+GcTbOK(e) == /\ e.admitted <= TbBound(T.global, T.globalBurst, e.window)
+             /\ (~ready \/ last.k = "fail") => (e.admitted <= TbBound(T.local, T.localBurst, e.window) /\ e.admitted >= T.local * (e.window - 1))
+Accept == Ev.k = "measure" => IF T.strategy = "globalCount" THEN (IF T.type = "mif" THEN GcMifOK(Ev) ELSE GcTbOK(Ev))
+                              ELSE IF T.type = "mif" THEN MifOK(Ev) ELSE TbOK(Ev)
 Next == /\ l <= Len(T.events) /\ Accept /\ l' = l + 1 /\ tr' = tr
         /\ ready' = IF Ev.k = "ready" THEN Ev.v ELSE ready
-        /\ last' = IF Ev.k \in {"reply", "replyerr"} THEN [k |-> Ev.k, q |-> Ev.q, b |-> Ev.b] ELSE last
+        /\ last' = IF Ev.k \in {"reply", "replyerr"} THEN [k |-> Ev.k, q |-> Ev.q, b |-> Ev.b]
+                   ELSE IF Ev.k = "acq" /\ Ev.gk # "tooold" THEN [k |-> Ev.gk, q |-> Ev.q, b |-> 0] ELSE last
 Spec == Init /\ [][Next]_vars
 Judge == (l <= Len(T.events) /\ ~Accept) => PrintT(<<"REJECT", T.id, l>>)
 =============================================================================
